@@ -139,7 +139,14 @@ func handleGetUser(w http.ResponseWriter, r *http.Request, s Server) (int, error
 		return restapi.EncodeResponse(w, http.StatusNotFound, &userNotFoundJSON)
 	}
 
-	return restapi.EncodeResponse(w, http.StatusOK, response{userCred, s.StatsCollector.Snapshot().Traffic})
+	var t stats.Traffic
+	for _, u := range s.StatsCollector.Snapshot().Users {
+		if u.Name == username {
+			t = u.Traffic
+			break
+		}
+	}
+	return restapi.EncodeResponse(w, http.StatusOK, response{userCred, t})
 }
 
 func handleUpdateUser(w http.ResponseWriter, r *http.Request, s Server) (int, error) {
